@@ -32,6 +32,7 @@ class Run:
         global CASE_TIMEOUT
         if not os.environ.get("VERIF_CASE_TIMEOUT"):
             CASE_TIMEOUT = 600.0 if tier == "quick" else 1500.0     # a case normally takes seconds; the margin is for a loaded machine
+        self.anomalies = []
         self.violations = []
         self.known_hits = []
         self.assumptions = []
@@ -110,6 +111,9 @@ class Run:
             c["samples"] = [{"note": "no sample recorded"}]
         ev = {"property_id": self.pid, "tier": self.tier, "seed": SEED, "level": self.level, "coverage": c,
               "assumptions": self.assumptions, "wall_s": round(wall, 2), "violations": len(self.violations)}
+        if self.anomalies:
+            c["harness_exceptions"] = len(self.anomalies)
+            c["exhaustive"] = False
         if REPLAY is not None:
             print("replay of %s: %d violation(s)" % (os.environ["VERIF_REPLAY"], len(self.violations)))
             return 1 if self.violations else 0
@@ -125,6 +129,12 @@ class Run:
         print("%s %s: %d cases, %d api calls, %d states, %d distinct non-trivial, exhaustive=%s, %d violation(s), %.1fs" % (
             self.pid, self.tier, c["evaluations"], c["transitions"], c["states"], c["distinct_nontrivial"],
             c["exhaustive"], len(self.violations), wall))
+        if self.anomalies:
+            sys.stderr.write("%s: the harness raised an exception inside %d case(s) (first: phase %s, case %s):\n%s\n" % (
+                self.pid, len(self.anomalies), self.anomalies[0][0], self.anomalies[0][1], self.anomalies[0][2]))
+            if not self.violations:
+                sys.stderr.write("%s: no violation was established by the other cases: machinery error, no verdict\n" % self.pid)
+                return 2
         return 1 if self.violations else 0
 
 
@@ -142,6 +152,7 @@ class Stats:
         self.nontrivial = set()
         self.samples = []
         self.viol = []
+        self.anomalies = []
         self.states = set()
 
     def count(self, bucket, n=1):
@@ -170,6 +181,7 @@ class Stats:
         for s in o.samples:
             self.sample(s)
         self.viol += o.viol
+        self.anomalies = (self.anomalies + getattr(o, "anomalies", []))[:20]
 
     def as_dict(self, wall=0.0):
         return {"cases": self.cases, "calls": self.calls or self.cases, "hist": dict(sorted(self.hist.items())),
@@ -190,6 +202,11 @@ def _worker(fn, setup, cases, idxs, slot, wfd, wid):
                 fn(env, cases[i], st)
             except Violation as e:
                 st.fail(str(e), cases[i])
+            except Exception:
+                # the harness itself tripped over this case (e.g. the library returned something the case function did not
+                # anticipate): remember it, keep exploring; it is NOT a verdict - see Run.finish
+                if len(st.anomalies) < 5:
+                    st.anomalies.append((repr(cases[i])[:300], traceback.format_exc()[-1500:]))
         slot.seek(wid * 8)
         slot.write(struct.pack("<q", -2))
         data = pickle.dumps(st)
@@ -341,6 +358,8 @@ def run_phase(run, name, fn, cases, setup=None, rule=None, nproc=None, exhaustiv
     run.phase(name, d, rule=rule, exhaustive=exhaustive)
     for what, case, raw in st.viol:
         run.violation("[%s] %s" % (name, what), case, raw, name)
+    for case, tb in getattr(st, "anomalies", []):
+        run.anomalies.append((name, case, tb))
     return st
 
 
